@@ -247,6 +247,10 @@ structure FactoryFacts : Prop where
   /-- every call builds its own context: the precision one cast rounds with is never written by another cast
   (which is what makes the model's `factory` a function of its arguments alone) -/
   privateContext : Gen.Cast.contextScope = "call"
+  /-- the factory reads nothing of the interpreter's ambient state — not the calling thread's decimal context (its precision,
+  rounding mode, exponent range, traps), no locale, environment or `sys` setting: everything it rounds or quantises with is
+  the private context above and `self.scale` / `self.precision` (which is what lets the model's `factory` take no context argument) -/
+  ambientFree : Gen.Cast.factoryAmbient = []
 
 theorem roundTo_id (p : Nat) (neg : Bool) (c : Nat) (e : Int) (h : numDigits c ≤ p) :
     roundTo p (.fin neg c e) = .fin neg c e := by
